@@ -9,7 +9,7 @@ from props import store_common
 
 PID = 'C07'
 META = {
-    'text': 'Theorems over the hand-written Gallina model of one value update as six atomic steps (mkstemp, dump, md5sum, sha1sum, unlink-or-rename, table write): for every history and every crash point of every update, every stored file is named by the digest of its content, the store holds one file per name, the novelty flag is true exactly when the digest was absent before (with injective digest: exactly when the content was absent), and every primary entry names an existing stored file. Tied to the code by running the real update with a crash injected at every wrapped step, reopening, and comparing store, staging area and primary table with the model; digests are recomputed with hashlib over every stored file.',
+    'text': 'Theorems over the hand-written Gallina model of one value update as six atomic steps (mkstemp, dump, md5sum, sha1sum, unlink-or-rename, table write): for every history and every crash point of every update, every stored file is named by the digest of its content, the store holds one file per name, the novelty flag is true exactly when the digest was absent before (with injective digest: exactly when the content was absent), and every primary entry names an existing stored file. Tied to the code by running the real update with a crash injected at every wrapped step, reopening, and comparing store, staging area and primary table with the model; digests are recomputed with hashlib over every stored file. Faults the process survives are inside the model as well (Model/StoreFault.v): for every history in which, besides the stops inside updates, the k-th write of a client call to one of the five name tables is refused with OSError and the database carries on, no primary entry names a missing file, files are named by their digest, one copy per name, the novelty flag is exact (C07_no_dangling_faults, C07_isnew_iff_faults), a refused call stores and records nothing (C07_refused_call_stores_nothing), and close/reopen is the identity on the state, so a surviving process holds nothing in memory that a restart would not rebuild (C07_survivor_is_restart); those histories run in the model and on the real code and are compared after every call, with the store oracle on the implementation.',
     'note': 'Trusted: Coq kernel; hand model Store.v; driver (crash = exception raised before an atomic step; rename atomic on one device; dbm durability not modelled); md5sum/sha1sum stand-in after 40 real calls (cross-checked). No axioms; digest collision freedom is an explicit hypothesis.',
     'technique': 'Coq proof over a hand-written step model + step-instrumented model/implementation correspondence + store oracle on the implementation',
 }
